@@ -6,7 +6,7 @@ CONSTANTS
   MaxTip = 3
   Mat = 2
   Answers = {"accepted", "inmempool", "rejected", "notifyfail1", "notifyfail2", "badlabel"}
-  Acts = {"Receive", "Mine", "Lock", "Lease", "Send", "SendExplicit", "FundOwn", "DryRun", "Restart", "RestartRej"}
+  Acts = {"Receive", "Mine", "Lock", "Lease", "Send", "SendExplicit", "SendSelf", "FundOwn", "DryRun", "Restart", "RestartRej"}
   LockCoins = {1}
   MaxHist = 40
   FullHist = FALSE
